@@ -1,11 +1,49 @@
 /- Line-protocol driver: one JSON request per line in, one JSON answer per line out.
    Unknown or malformed requests answer {"bad-op": msg}; the model never defaults. -/
 import HedVerif.Driver.Util
+import HedVerif.Driver.C01
 import HedVerif.Driver.C02
+import HedVerif.Driver.C03
+import HedVerif.Driver.C04
+import HedVerif.Driver.C05
+import HedVerif.Driver.C06
+import HedVerif.Driver.C07
+import HedVerif.Driver.C08
+import HedVerif.Driver.C09
+import HedVerif.Driver.C10
+import HedVerif.Driver.C11
+import HedVerif.Driver.C12
+import HedVerif.Driver.C13
+import HedVerif.Driver.C14
+import HedVerif.Driver.C15
+import HedVerif.Driver.C16
+import HedVerif.Driver.C17
+import HedVerif.Driver.C18
+import HedVerif.Driver.C19
+import HedVerif.Driver.C20
 open Lean HedVerif.Driver
 
 def handlers : List (String → Json → Option (Except String Json)) :=
-  [HedVerif.Driver.C02.handle]
+  [HedVerif.Driver.C01.handle,
+   HedVerif.Driver.C02.handle,
+   HedVerif.Driver.C03.handle,
+   HedVerif.Driver.C04.handle,
+   HedVerif.Driver.C05.handle,
+   HedVerif.Driver.C06.handle,
+   HedVerif.Driver.C07.handle,
+   HedVerif.Driver.C08.handle,
+   HedVerif.Driver.C09.handle,
+   HedVerif.Driver.C10.handle,
+   HedVerif.Driver.C11.handle,
+   HedVerif.Driver.C12.handle,
+   HedVerif.Driver.C13.handle,
+   HedVerif.Driver.C14.handle,
+   HedVerif.Driver.C15.handle,
+   HedVerif.Driver.C16.handle,
+   HedVerif.Driver.C17.handle,
+   HedVerif.Driver.C18.handle,
+   HedVerif.Driver.C19.handle,
+   HedVerif.Driver.C20.handle]
 
 def dispatch (j : Json) : Json :=
   match getString j "op" with
